@@ -39,6 +39,7 @@ import (
 	str "github.com/echovault/sugardb/internal/modules/string"
 	"github.com/echovault/sugardb/internal/raft"
 	"github.com/echovault/sugardb/internal/snapshot"
+	"github.com/echovault/sugardb/internal/verif"
 	"io"
 	"log"
 	"net"
@@ -592,7 +593,10 @@ func (server *SugarDB) takeSnapshot() error {
 		// Handle snapshot in standalone mode
 		if err := server.snapshotEngine.TakeSnapshot(); err != nil {
 			log.Println(err)
+			verif.Point("snap.finished", err.Error())
+			return
 		}
+		verif.Point("snap.finished", "")
 	}()
 
 	return nil
